@@ -38,6 +38,7 @@ func gen(g *vh.Gen) {
 	sd.GenSlow(g)
 	sd.GenChurn(g)
 	sd.GenMDeliver(g)
+	sd.GenSDeliver(g)
 	sd.GenConc(g)
 }
 
@@ -47,6 +48,9 @@ func exec(kind string, in []string) []string {
 	}
 	if kind == "cdeliver" {
 		return sd.ExecCDeliver(in) // witness of K-C16-concurrent-stored-after-deleted, run from the corpus
+	}
+	if kind == "sdeliver" {
+		return sd.ExecSDeliver(in)
 	}
 	if kind == "mdeliver" {
 		return sd.ExecMDeliver(in)
